@@ -152,8 +152,9 @@ def wiring_case(rng: random.Random, rec: dict) -> tuple[dict, str | None]:
             if p == "args":
                 want = given.get("args")
                 if want is None:
-                    if not (isinstance(got_v, list) and got_v == []):
-                        return canon, f"args omitted/None reached the callee as {got_v!r}, the model says []"
+                    # scipy calls func(x, *args): an empty list and an empty tuple both mean "no extra argument"
+                    if not (type(got_v) in (list, tuple) and len(got_v) == 0):
+                        return canon, f"args omitted/None reached the callee as {got_v!r}, the model says an empty sequence"
                 elif got_v is not want:
                     return canon, "args reached the callee as a different object"
             else:
